@@ -261,6 +261,11 @@ type delivery struct {
 	recipients []string
 	// Addresses passed to AddRcpt of the delivery object (after RewriteRcpt).
 	added map[string]bool
+	// The recipients (original values) each of these addresses stands for
+	// in this delivery object, used to report its per-recipient statuses.
+	// The pipeline-wide map can't be used for that: another delivery object
+	// can handle the same address for other recipients.
+	originals map[string][]string
 	// Set by BodyNonAtomic if the message was not handed to the delivery
 	// object or its Body failed, all of its recipients got an error status
 	// then. Commit aborts such delivery instead of committing it.
@@ -392,6 +397,7 @@ func (dd *msgpipelineDelivery) AddRcpt(ctx context.Context, to string, opts smtp
 
 				// The target gets each address once, even if several
 				// recipients were rewritten to it.
+				delivery.originals[to] = appendUnique(delivery.originals[to], originalTo)
 				if !delivery.added[to] {
 					if err := delivery.AddRcpt(ctx, to, opts); err != nil {
 						return wrapErr(err)
@@ -551,7 +557,7 @@ func (dd *msgpipelineDelivery) BodyNonAtomic(ctx context.Context, c module.Statu
 		partDelivery, ok := delivery.Delivery.(module.PartialDelivery)
 		if ok {
 			partDelivery.BodyNonAtomic(ctx, statusCollector{
-				originalRcpts: dd.originalRcpts,
+				originalRcpts: delivery.originals,
 				wrapped:       c,
 			}, header, body)
 			continue
@@ -706,7 +712,7 @@ func (dd *msgpipelineDelivery) getDelivery(ctx context.Context, tgt module.Deliv
 		dd.log.Debugf("tgt.Start(%s) failure, target = %s: %v", dd.sourceAddr, objectName(tgt), err)
 		return nil, err
 	}
-	delivery_ = &delivery{Delivery: deliveryObj, added: map[string]bool{}}
+	delivery_ = &delivery{Delivery: deliveryObj, added: map[string]bool{}, originals: map[string][]string{}}
 
 	dd.log.Debugf("tgt.Start(%s) ok, target = %s", dd.sourceAddr, objectName(tgt))
 
